@@ -153,12 +153,14 @@ func (c *Conn) getRedo() [][]byte {
 	// so instead let's leverage a select. as soon as it blocks (due to chan close or no more input but not closed yet) we know we're
 	// done reading and move on. it's easy to prove in the implementer that we don't send any more data to In after calling this
 	defer c.clearRedo()
+	verifPoint("getredo-start")
 	for {
 		select {
 		case buf := <-c.In:
 			c.numBuffered.Dec(1)
 			c.keepSafe.Add(buf)
 		default:
+			verifPoint("getredo-before-getall")
 			return c.keepSafe.GetAll()
 		}
 	}
@@ -191,6 +193,7 @@ func (c *Conn) HandleData() {
 			active = time.Now()
 			c.numBuffered.Dec(1)
 			action = "write"
+			verifPoint("handledata-dequeued")
 			log.Tracef("conn %s HandleData: writing %s", c.key, buf)
 			c.keepSafe.Add(buf)
 			n, err := c.Write(buf)
